@@ -9,6 +9,7 @@ META={
  "C16":("exploration","Params texts are constructed so that every array element's exact source text is known; each typed read through the library is compared with serde_json::from_str of that text, over generated read plans. Sampled exploration of texts x plans.","4/C16","proptest differential vs plain serde_json parse on constructed texts","serde_json::from_str is the reference parse"),
  "C20":("exploration","Insert sequences (incl. values whose Serialize fails midway and clones of half-built builders) are applied to both builders; the emitted text is re-read by an independent reader and compared with the to_value images of the successful inserts; all tuple arities and blanket impls are covered.","4/C20","proptest operation sequences + round-trip through own JSON reader","serde_json::to_value is the reference image; a builder whose only inserts failed may give None or an empty container"),
  "C01":("exploration","Every generated message (constructed requests x mutators, token/member enumerations, arbitrary bytes) is sent through the real tower service (HTTP) and through a real hyper+soketto WebSocket connection in memory, and judged by an independent JSON-RPC classifier and a model of the harness handlers; member and token enumerations are exhaustive up to a small length, everything else is sampled.","4/C01","proptest + bounded exhaustive enumeration; differential vs own JSON-RPC classifier over own strict JSON reader; HTTP==WS metamorphic relation","in-memory transports (no TCP); duplicate member names / non-UTF-8 / lone surrogates / form feeds / >127 leading blanks get only the universal invariants; serde_json, hyper, soketto, tokio paused-clock idleness trusted"),
+ "C02":("exploration","Generated batches (all entry classes, all permutations of small batches, all batch configurations, both transports, subscription entries driven by handler actors) are judged entry by entry: classification by an independent classifier, expected replies from a handler model and from sending the same entry alone, bipartite matching of replies to entries, invocation-log multiset. Sampled exploration.","4/C02","proptest + permutation enumeration of small batches; model + metamorphic (entry alone == entry in batch) oracle","reply order not required; entries with duplicate member names only get universal invariants; in-memory transports"),
 }
 HOOK_COMMITS=["f958b76"]
 NOT_BUILT="check not built yet in this session (work in progress; DESIGN.md section 9 gives the order)"
